@@ -212,6 +212,55 @@ theorem y02_scan_strBody {b : List Char} (h : stringBodySafe b = true) (stk : St
     rw [this]
     exact ih h.2
 
+theorem y02_scan_esc2 (stk : Stack) (x : Char) (rest : List Char) (hx : isEscapeChar x = true) :
+    scan .str stk ('\\' :: x :: rest) = scan .str stk rest := by
+  rw [y02_scan_cons]
+  have h1 : step .str stk '\\' = some (.strEsc, stk) := rfl
+  rw [h1]
+  show scan .strEsc stk (x :: rest) = _
+  rw [y02_scan_cons]
+  have h2 : step .strEsc stk x = some (.str, stk) := by
+    unfold step; simp [hx]
+  rw [h2]
+  rfl
+
+theorem y02_scan_escBody (b : List Char) (stk : Stack) (q : List Char) :
+    scan .str stk (b.flatMap escapeStringChar ++ '"' :: q) = scan .code stk q := by
+  induction b with
+  | nil => rfl
+  | cons c b ih =>
+    rw [List.flatMap_cons, List.append_assoc]
+    rcases lx_escapeStringChar_cases c with ⟨_, h⟩ | ⟨_, h⟩ | ⟨_, h⟩ | ⟨_, h⟩ | ⟨h1, h2, h3, h4, h⟩
+    · rw [h]
+      simp only [List.cons_append, List.nil_append]
+      rw [y02_scan_esc2 _ _ _ (by decide)]
+      exact ih
+    · rw [h]
+      simp only [List.cons_append, List.nil_append]
+      rw [y02_scan_esc2 _ _ _ (by decide)]
+      exact ih
+    · rw [h]
+      simp only [List.cons_append, List.nil_append]
+      rw [y02_scan_esc2 _ _ _ (by decide)]
+      exact ih
+    · rw [h]
+      simp only [List.cons_append, List.nil_append]
+      rw [y02_scan_esc2 _ _ _ (by decide)]
+      exact ih
+    · rw [h]
+      simp only [List.cons_append, List.nil_append, y02_scan_cons]
+      have : step .str stk c = some (.str, stk) := by
+        unfold step; simp [h1, h2, h3, h4]
+      rw [this]
+      exact ih
+
+/-- the escaped form of ANY Python string between two quotes is a closed piece of stub text -/
+theorem y02_closed_escaped (b : List Char) : y02_Closed ('"' :: (b.flatMap escapeStringChar ++ ['"'])) := by
+  intro stk
+  rw [y02_scan_cons]
+  show scan .str stk (b.flatMap escapeStringChar ++ ['"']) = _
+  rw [y02_scan_escBody]; rfl
+
 /-- `"` body `"` with a body free of quotes, backslashes and line breaks -/
 theorem y02_closed_string {b : List Char} (h : stringBodySafe b = true) : y02_Closed ('"' :: (b ++ ['"'])) := by
   intro stk
@@ -397,6 +446,11 @@ theorem y02_CS_quotedString {b : String} (h : stringBodySafe b.toList = true) : 
   rw [this]
   exact y02_closed_string h
 
+theorem y02_CS_escaped (s : String) : y02_CS (escapeStringLiteral s) := by
+  unfold y02_CS escapeStringLiteral
+  rw [String.toList_ofList]
+  exact y02_closed_escaped s.toList
+
 /-- `@PythonName("…")` -/
 theorem y02_CS_nameAnnotation {n : String} (h : stringBodySafe n.toList = true) : y02_CS (nameAnnotation n) := by
   have e : nameAnnotation n = "@PythonName(" ++ ("\"" ++ n ++ "\"") ++ ")" := by
@@ -470,7 +524,7 @@ theorem y02_CS_builtin {n b : String} (h : Spec.builtin n = some b) : y02_CS b :
 
 theorem y02_CS_litText {l : Lit} (h : litBal l = true) : y02_CS (Spec.litText l) := by
   cases l with
-  | str s => exact y02_CS_quotedString h
+  | str s => exact y02_CS_escaped s
   | int i => exact y02_CS_int i
   | bool b => cases b <;> exact y02_CS_of_bal (by decide)
   | none => exact y02_CS_of_bal (by decide)
